@@ -233,6 +233,26 @@ fn check_one(rep: &Report, ck: &str, c: &Case, params: &[Params]) -> CheckResult
         rep.class("transplant-skipped(public parts not reproducible)");
     }
 
+    // a second, fresh proof object whose FIRST verifications are refused ones (exchanged base, foreign base,
+    // other bounds), then its own statement (every second case)
+    if c.seed % 2 == 0 {
+        if let Ok(p2) = catch(|| Boudot2000RangeProof::prove::<Sha256>(&x, &com, &p.g, &p.h, &p.n, &a, &b)) {
+            let h2 = (&p.h * &p.h).complete() % &p.n;
+            let g2 = (&p.g * &p.h).complete() % &p.n;
+            let _ = ver(&p2, &p.g, &h2, &p.n, &a, &b);
+            let _ = ver(&p2, &g2, &p.h, &p.n, &a, &b);
+            let _ = ver(&p2, &p.g, &p.h, &p.n, &a, &(&b + 1u32).complete());
+            rep.eval(ck, 1);
+            if !ver(&p2, &p.g, &p.h, &p.n, &a, &b) {
+                return rep.fail(ck, "honest-range-proof-rejected-after-refusals", "a fresh range proof object first offered under other bases / bounds (refused) is then refused for its own statement too".into(), cj(json!(null)));
+            }
+        }
+    }
+    // the same proof object after the refused verifications above: still accepted for its own statement
+    rep.eval(ck, 1);
+    if !ver(&proof, &p.g, &p.h, &p.n, &a, &b) {
+        return rep.fail(ck, "honest-range-proof-rejected-after-refusals", "the same range proof object no longer verifies for its own bounds after it was refused under other bounds / bases".into(), cj(json!(null)));
+    }
     // ---- negative (iii): every integer leaf ----------------------------------------------------------
     let leaves = int_leaves(&pj);
     let edits = pick_edits(&leaves, c.leaf_edits, &mut st);
